@@ -229,6 +229,24 @@ static void sweep_probe(void)
         w_save(after);
         if (memcmp(before, after, n)) { mc_fail("unclaimed-frame-effect", "identifier sweep: frame %03X (no service of this node listens there) changed the state of the node in mode %d", id, M.mode); break; }
     }
+    /* ... and a block download dialogue on the SDO request identifier: the initiate request is answered, a segment inside the block is consumed silently, the
+     * client abort is not answered - in PRE-OPERATIONAL and OPERATIONAL all three belong to the SDO server alone (no other service, no application callback),
+     * otherwise each is a frame nobody claims */
+    {
+        static const uint8_t F[3][8] = { { 0xC2, 0x30, 0x21, 0x00, 20, 0, 0, 0 }, { 0x01, 1, 2, 3, 4, 5, 6, 7 }, { 0x80, 0x30, 0x21, 0x00, 0x00, 0x00, 0x04, 0x05 } };
+        int served = (M.mode == M_PREOP || M.mode == M_OP);
+        w_restore(before);
+        for (int k = 0; k < 3; k++) {
+            int cb, want_tx = (served && k == 0) ? 1 : 0;
+            w_obs_clear();
+            w_rx(&Node, 0x600u + LID, 8, F[k]); mc_steps++;
+            cb = nc_count_cb(CB_IF_RECEIVE);
+            if (served ? cb != 0 : (cb > 1 || (cb == 0 && M.mode != M_STOP))) { mc_fail("unclaimed-frame-delivery", "SDO block download frame %d (%02X..) handed to the application %d time(s) in mode %d", k, F[k][0], cb, M.mode); break; }
+            if (OBS.ncb != cb) { mc_fail("unclaimed-frame-delivery", "SDO block download frame %d (%02X..) caused a callback of another service in mode %d", k, F[k][0], M.mode); break; }
+            if (k == 2 && served) continue;               /* how a client abort is acknowledged is not constrained (inside a block it reads as a segment) */
+            if (OBS.ntx != want_tx || (want_tx && OBS.tx[0].id != 0x580u + LID)) { mc_fail("gating-sdo", "SDO block download frame %d (%02X..) in mode %d: %d frame(s) sent, expected %d", k, F[k][0], M.mode, OBS.ntx, want_tx); break; }
+        }
+    }
     w_restore(before); w_obs_clear();
 }
 
